@@ -15,6 +15,9 @@ def run(ctx):
     ctx.audit("Slock.Properties.C04", THEOREMS)
     if ctx.tier == "thorough":
         ctx.leanchecker("Slock.Properties.C04")
+    # the quiescent claim carried down to the record-level model (stage 2) through the simulation
+    if ctx.lake_build(["Slock.Properties.EngineSimTransfer"]):
+        ctx.audit("Slock.Properties.EngineSimTransfer", ["Slock.SimP.key_view", "Slock.SimP.transfer_key", "Slock.SimP.C04_quiescent_transfers", "Slock.SimP.sim_run"])
     engine_common.run_engine(ctx, ["C04:"], n_quick=3000, n_thorough=60000)
     ctx.cov["rule"] = ("seeded sequences with queue-heavy profile (exclusive locks, long waits, mixed priorities); monitor: at every quiescent moment the head live waiter "
                        "of every key is not admissible, classified by what made it admissible; distinct_nontrivial = distinct sequences containing at least one grant")
